@@ -63,6 +63,10 @@ LAYOUTS = {
     "abc": ["a", "b", "c"],
     "ad": ["a", "d"],
     "bcd": ["b", "c", "d"],
+    # declared in an order that is not alphabetical (the declared order is part of the store)
+    "ba": ["b", "a"],
+    "dca": ["d", "c", "a"],
+    "cab": ["c", "a", "b"],
 }
 FIELD_DESC = {
     "a": ((), np.float64),
@@ -251,7 +255,7 @@ def gen_case(rng):
             rows.insert(rng.randint(0, len(rows)), [cur_cap + rng.randint(0, 3), fresh()])
             ops.append({"op": "add", "xfs": [], "rows": rows})
         elif r < 0.54:
-            ops.append({"op": "badadd", "kind": rng.choice(["length", "missing", "extra", "text", "inner"]),
+            ops.append({"op": "badadd", "kind": rng.choice(["length", "missing", "extra", "text", "inner", "negative", "negative"]),
                         "rows": [[rng.randrange(max(cur_cap, 1)), fresh()] for _ in range(2)] if cur_cap else []})
         elif r < 0.56:
             ops.append({"op": "badresize", "extra": rng.randint(1, 4)})
@@ -422,6 +426,11 @@ def run_case(case):
                     bad_arr = np.array(rows[num[-1]], dtype=object)
                     bad_arr.reshape(-1)[-1] = "abc"
                     rows[num[-1]] = bad_arr
+                elif op["kind"] == "negative":
+                    # a negative index among valid ones: rejected like any other index outside [0, capacity) -- it
+                    # must not wrap around to the last slots (-1, -capacity, one beyond: by position in the batch)
+                    idx = idx.copy()
+                    idx[len(idx) // 2] = [-1, -ref_cap, -ref_cap - 1, -1][ws[0][1] % 4] if ref_cap else -1
                 elif op["kind"] == "inner":
                     # wrong inner shape (also for an object field, whose declared shape is ())
                     f_ = fields[-1]
@@ -431,9 +440,11 @@ def run_case(case):
                     rows["zzz"] = np.zeros(len(ws))
                 try:
                     store.add(idx, rows, {}, [])
-                    return Failure("oracle", f"{where}: malformed add ({op['kind']}) accepted")
-                except ValueError:
-                    pass
+                    return Failure("oracle", f"{where}: malformed add ({op['kind']}"
+                                   f"{', indices ' + str(idx.tolist()) if op['kind'] == 'negative' else ''}) accepted")
+                except (ValueError, IndexError) as e:
+                    if isinstance(e, IndexError) and op["kind"] != "negative":
+                        raise
                 drv.ask("badadd")
                 version[0] += 1
             elif kind == "clear":
@@ -615,6 +626,18 @@ def run_case(case):
             a = impl_state(store, fields)
             if a["bad"]:
                 return Failure("oracle", f"{where}: {a['bad']}")
+            # the field layout is part of the store (a store rebuilt from a raw dict is *equivalent*): the declared
+            # order is the order of field_list and of the arrays in the tuple form of data()
+            if list(store.field_list) != list(fields):
+                return Failure("oracle", f"{where}: field_list {list(store.field_list)} != declared order {list(fields)}")
+            tup = store.data(return_type="tuple")
+            dall = store.data()
+            names = list(fields) + ["index"]
+            if len(tup) != len(names) or any(np.asarray(t).shape != np.asarray(dall[n]).shape
+                                             or np.asarray(t).dtype != np.asarray(dall[n]).dtype
+                                             for t, n in zip(tup, names)):
+                return Failure("oracle", f"{where}: data(return_type='tuple') does not list the fields in declared order "
+                               f"{names}: shapes / dtypes {[(np.asarray(t).shape, str(np.asarray(t).dtype)) for t in tup]}")
             want_data = list(ref.items())
             if not (a["len"] == len(ref) == len(a["occ"]) and sorted(a["olist"]) == a["occ"] == sorted(ref)
                     and len(set(a["olist"])) == len(a["olist"])):
